@@ -47,6 +47,11 @@ def shards(tier, seed):
     out.append(("isprime_adv", dict(kind="isprime_adv", nrand=2000 if q else 60000)))
     out.append(("isprime_large", dict(kind="isprime_large", big=not q)))
     out.append(("isprime_proth", dict(kind="isprime_proth", mmax=3400 if q else 4000)))
+    out.append(("pseudoprime_families", dict(kind="pseudoprime_families", qmax=600)))
+    if not q:
+        # one member above 3000 bits: next_prime has to walk to the true next prime there, minutes of Miller-Rabin by itself
+        out.append(("pseudoprime_families_3000", dict(kind="pseudoprime_families", qmax=3002, qmin=3000)))
+    out.append(("factor_structured", dict(kind="factor_structured", count=6 if q else 60)))
     out.append(("child_werror_isprime_adv", dict(kind="isprime_adv", nrand=300, _pyopt="werror+bb")))
     for i in range(3 if q else 8):
         out.append(("first_use_%d" % i, dict(kind="first_use", runs=40 if q else 300)))
@@ -201,6 +206,40 @@ def run(ctx, name, kind, **kw):
             chk_isprime(ctx, p, True, "is_prime.large_prime", key="rand%d" % bits)
             q = nt.random_prime(bits // 2 + 1, rng)
             chk_isprime(ctx, q * nt.random_prime(bits // 2, rng), False, "is_prime.large_composite", key="semi%d" % bits)
+    elif kind == "pseudoprime_families":
+        # composite Mersenne numbers 2^q - 1 (q prime) and composite Fermat numbers 2^(2^k) + 1 are strong pseudoprimes to base 2 - the
+        # classical trap for a Miller-Rabin that economises on bases.  next_prime(N - 1) must not answer N (N is certified composite
+        # by the reference: a witness among bases 3..37); below 2^64 is_prime(N) is judged too.
+        mers = set(MERSENNE) | {2, 3, 5, 7, 13, 17, 19, 31, 61, 89, 107, 127, 521, 607, 1279, 2203, 2281, 3217, 4253, 4423}
+        qs = [q for q in (11, 23, 29, 37, 41, 43, 47, 53, 59, 67, 71, 73, 79, 83, 97, 101, 131, 257, 509, 1009, 1499, 2003, 2503, 3001, 3011, 3041, 3499) if q not in mers and kw.get("qmin", 0) <= q <= kw["qmax"]]
+        cands = [((1 << q) - 1, "M%d" % q) for q in qs] + ([((1 << (1 << k)) + 1, "F%d" % k) for k in range(5, 10)] if not kw.get("qmin") else [])
+        for N, label in cands:
+            if nt.is_prime(N):
+                ctx.count("pseudoprime_family_member_is_prime_skipped")
+                continue
+            ctx.case("next_prime.base2_pseudoprime_family", key=label, nontrivial=True, sample=dict(N=label, bits=N.bit_length()) if ctx.want("next_prime.base2_pseudoprime_family") else None)
+            try:
+                got = NT.next_prime(N - 1)
+            except Exception as e:
+                ctx.violation("next_prime_raises", "next_prime(%s - 1) raised %s" % (label, type(e).__name__), dict(N=label))
+                continue
+            ctx.check(got != N and got > N, "next_prime_returns_composite", "next_prime(%s - 1) returned %s itself, a composite (strong pseudoprime to base 2; a base among 3..37 proves it composite)" % (label, label), dict(N=label))
+            if N < 1 << 64:
+                chk_isprime(ctx, N, False, "is_prime.strong_pseudoprime", key=label)
+    elif kind == "factor_structured":
+        # n = m * p * q * r with m smooth, q, r primes just above the small-prime table and p a prime close to q * r (the two cofactors
+        # p and q r nearly balanced: where difference-of-squares shortcuts bite); expected result known by construction
+        small = nt.primes_below(60)
+        for _ in range(kw["count"]):
+            q = nt.next_prime(rng.randrange(1229, 1500))
+            r_ = nt.next_prime(rng.randrange(q, 1600))
+            qr = q * r_
+            p = nt.next_prime(qr + rng.randrange(-qr // 150, qr // 150))
+            m = 1
+            for _i in range(rng.randrange(0, 4)):
+                m *= rng.choice(small)
+            for n in (m * p * q * r_, p * q * r_, m * p * qr * q):
+                chk_factor(ctx, n, "factorization.near_balanced", key="%d" % n.bit_length())
     elif kind == "isprime_proth":
         # n = k * 2^m + 1 (n-1 has m trailing zero bits: the number of squarings in Miller-Rabin) for the published exponents of
         # k = 3, 5, 7; every candidate is certified by the reference before it is used
